@@ -243,8 +243,24 @@ def check(ctx):
                       ob, c, detail=f"guarded by `{owner} is not cls`")
     ctx.require(n10 >= 1, "SchemaBuilder.object: no reference appended to the allOf members (discriminated parent) found")
 
+    # ---------------- R11: merging the two definitions of one name refuses every difference
+    ctx.rule("C17.R11", "compare_schemas (definitions of the same name from both directions) raises for a mapping / non-mapping pair, for sequences of different lengths and for unequal leaves; sequences are compared element by element", floor=4)
+    cs = model.func("apischema.json_schema.schema.compare_schemas")
+    w, r = cs.params[0], cs.params[1]
+    tests = [norm(n.test) for n in ast.walk(cs.node) if isinstance(n, ast.If) and any(isinstance(x, ast.Raise) for x in n.body)]
+    ctx.check(any(f"not isinstance({r}, Mapping)" in t for t in tests), "C17.R11", f"{cs.qualname}:mapping-kind", cs.node.body[0], "a mapping is merged with a non-mapping without refusal", cs, cs.node, detail="raise if the other side is not a mapping")
+    ctx.check(any(f"len({w}) != len({r})" in t or f"len({r}) != len({w})" in t for t in tests), "C17.R11", f"{cs.qualname}:sequence-length", cs.node.body[0],
+              "sequences of different lengths are not refused: with element-wise comparison over the shorter one, a `type` / `enum` / `anyOf` list that is a prefix of the other is merged silently and the definition differs from the inline $defs of one direction", cs, cs.node, detail="raise if len(write) != len(read)")
+    ctx.check(any(t in (f"not {w} == {r}", f"{w} != {r}", f"not ({w} == {r})", f"{r} != {w}") for t in tests), "C17.R11", f"{cs.qualname}:leaf", cs.node.body[0], "unequal leaves are not refused", cs, cs.node, detail="raise if write != read")
+    rec = [c for c in ast.walk(cs.node) if isinstance(c, ast.Call) and isinstance(c.func, ast.Name) and c.func.id == cs.name]
+    elementwise = [c for c in rec if len(c.args) == 2 and all(isinstance(a, ast.Subscript) and norm(a.value) in (w, r) for a in c.args) and norm(c.args[0].slice) == norm(c.args[1].slice)]
+    zipped = [c for c in rec if len(c.args) == 2 and all(isinstance(a, ast.Name) for a in c.args)]
+    ctx.check(bool(elementwise) or bool(zipped), "C17.R11", f"{cs.qualname}:elementwise", cs.node.body[0], "sequence elements are not compared pairwise", cs, cs.node, detail="compare_schemas(write[i], read[i])")
+
 
 def mutants(mb):
+    mb.add_text("compare-schemas-zip-truncates", "apischema/json_schema/schema.py", "        if not isinstance(read, Sequence) or len(write) != len(read):\n            raise ValueError\n        return [compare_schemas(write[i], read[i]) for i in range(len(write))]", "        if not isinstance(read, Sequence):\n            raise ValueError\n        return [compare_schemas(w, r) for w, r in zip(write, read)]", "C17.R11", "sequence-length")
+    mb.add_text("compare-schemas-leaf-accepts", "apischema/json_schema/schema.py", "        if not write == read:\n            raise ValueError\n        return write", "        return write", "C17.R11", "leaf")
     mb.add_text("parent-self-reference", "apischema/json_schema/schema.py", "            if discriminator_parent is not cls:\n                discriminator_ref = self.ref_schema(\n                    get_type_name(discriminator_parent).json_schema\n                )\n                assert discriminator_ref is not None\n                result.append(discriminator_ref)\n", "            discriminator_ref = self.ref_schema(\n                get_type_name(discriminator_parent).json_schema\n            )\n            assert discriminator_ref is not None\n            result.append(discriminator_ref)\n", "C17.R10", "discriminator_ref")
     R = "apischema/json_schema/refs.py"
     S = "apischema/json_schema/schema.py"
